@@ -26,6 +26,8 @@ def gen_cases(tier, seed):
     cases = [{"bseed": rng.randrange(1 << 48), "count": 20, "maxn": 70000 if i % 5 == 0 else 4000} for i in range(n)]
     # end-of-block restrictions: inputs whose last possible match start carries competing candidates, every compressor
     cases += [{"bseed": rng.randrange(1 << 48), "count": 6, "mode": "endgame"} for i in range({"quick": 6, "search": 24, "thorough": 60}[tier])]
+    # window edge: a segment on the very first byte of the input repeated at distance 65535 / 65536 / 65537, every HC strategy
+    cases += [{"bseed": rng.randrange(1 << 48), "count": 2, "mode": "faredge"} for i in range({"quick": 4, "search": 12, "thorough": 30}[tier])]
     cases += cc.mid_gen_cases(rng, tier, 0.5)
     cases += cc.chain_gen_cases(rng, tier, 0.5)
     return cases
@@ -191,6 +193,23 @@ def run_case(st, case):
         return cc.run_chain_case(st, case, chain_judge(st))
     rng = random.Random(case["bseed"])
     res = cc.new_res()
+    if case.get("mode") == "faredge":
+        for j in range(case["count"]):
+            D = rng.choice([65535, 65536, 65536, 65537])
+            src = gens.distbound_at_start(rng, D)
+            n = len(src); b = cc.bound(n)
+            info = {"bseed": case["bseed"], "j": j, "dkind": "faredge", "n": n, "D": D}
+            for p in (2, 3, 4, 9, 10, 12):
+                r, out = cc.run_hc(st, rng.choice(["hc", "hc_ext", "hc_fr"]), src, b, p, res, dict(info, junk=rng.randrange(1 << 30)))
+                e = strict(st, b"", out, src) if r > 0 else "returned %d with capacity = bound" % r
+                if e:
+                    res["fails"].append({"status": "prop_fail", "what": "hc level %d, segment at distance %d from the first byte: %s" % (p, D, e[:300]), "detail": info})
+                elif blk.nontrivial_block(out): res["keys"].add(cc.key_of(src, "hc", p, b))
+            r, out = cc.run_fast(st, "default", src, b, 1, res, dict(info, junk=rng.randrange(1 << 30)))
+            e = strict(st, b"", out, src) if r > 0 else "returned %d with capacity = bound" % r
+            if e:
+                res["fails"].append({"status": "prop_fail", "what": "fast, segment at distance %d from the first byte: %s" % (D, e[:300]), "detail": info})
+        return cc.finish(res, "faredge")
     if case.get("mode") == "endgame":
         for j in range(case["count"]):
             n = rng.choice([48, 59, 64, 100, 300, 1000])
